@@ -9,9 +9,9 @@ PHRASES = ['"a"', '"a b"', '""', '"x \\" y"', '"l1\nl2"', '"*"']
 REGEXES = ['/a/', '/a.*b/', '//']
 FIELDS = ["f", "title", "a.b", "n.o.h", "x y", "", "f_1", "é", "xT12"]
 SPACES = ["", " ", "  ", "\t", "\n", "　 "]
-DEGREES = [None, "1", "2", "0.5", ".5", "2.0", "007", "10", "100", "0.0000001", "1.50", 1, 2, 0, -1,
+DEGREES = [None, "1", "2", "0.5", ".5", "2.0", "007", "10", "100", "0.0000001", "1.50", 1, 2, 0, -1, "0", "0.0", "00",
            Decimal("1.50"), Decimal("0.1"), "1234567890123456789012345678901"]
-PROX = [None, 1, 2, 0, 10, "3", "007", -2]
+PROX = [None, 1, 2, 0, 10, "3", "007", -2, "0", "00"]
 
 
 def rand_layout(rng, node, p=0.5):
